@@ -319,6 +319,10 @@ fn one_case(seed: u64, i: u64) -> CaseOut {
         ])
     };
     out.evals = evals.len() as u64;
+    if matches!(&sess.obs.end, Err(a) if a.is_rti_todo()) {
+        out.class("discarded_rti");
+        return out;
+    }
     if let Err(a) = &sess.obs.end {
         // which line was being executed: the last one consumed
         let line = sess.obs.commands.len().saturating_sub(1);
